@@ -578,7 +578,7 @@ class Program:
             mm = re.search(r'fn ' + re.escape(short) + r'\s*<([^(]*)>\s*\(', self.src(rel))
             if mm:
                 res = [g.split(':')[0].strip() for g in split_top(mm.group(1))]
-                res = [g for g in res if not g.startswith("'")]
+                res = [g[6:].strip() if g.startswith('const ') else g for g in res if not g.startswith("'")]
                 break
         self._generic_cache[fname] = res
         return res
@@ -715,9 +715,9 @@ class Exec:
     # ---- constants
     def const(self, text, frame):
         text = text.strip()
-        m = re.match(r'^(-?\d+)_(\w+)$', text)
+        m = re.match(r'^(-?\d+)(_\w+)?$', text)
         if m:
-            return int(m.group(1))
+            return int(m.group(1))      # `3_usize`, or a bare const-generic argument `3`
         if text in ('true', 'false'):
             return text == 'true'
         if text == '()':
